@@ -20,7 +20,7 @@ from .. import effects, guards
 MANIFEST = {
     "level": "other",
     "technique": "static analysis: symbolic evaluation of the printing routines (helpers inlined) followed by an exhaustive decision table over the classes of (degrees, minutes, seconds, sign, decimals, style) that the extracted term can distinguish; sign-case equivalence proof (exhaustive case split on the comparisons with zero, polynomial normal forms in each case) of the decomposition against its specification; algebraic match of the recombination; exact execution (rational arithmetic) of the extracted dms_tuple / ra_tuple terms on values at and within 1e-13..1e-9 of every field boundary",
-    "text": "For all values and numbers of decimals: the printed forms (both styles, angle and right ascension) never show 60 in minutes or seconds after the rounding carry, wrap 360 deg to 0, carry the sign exactly once on the leading non-zero field and read back to the rounded value modulo 360 deg / 24 h - decided on every class the code can distinguish (each field at 0, 1, mid-range, its maximum; seconds that round to 0, to 60 or stay; both signs; no / zero / some decimals). deg2dms is proved to be (int a, int 60 frac a, 60 frac(60 frac a), sign) of a = |reduce(value)| and dms2deg its inverse formula. The decomposition clause is additionally decided by executing dms_tuple() / ra_tuple() exactly on values at and within 1e-13..1e-9 of a whole second, minute or degree (hour), of 0 and of +-360, of both signs: integer degrees in [0, 360) / hours in [0, 24), integer minutes in [0, 60), seconds in [0, 60), the sign of the value, recombination to 1e-9 degree - so a carry added to the splitting routine is judged by what it returns, for the angle and the hour form alike. What float rounding adds is not decided.",
+    "text": "For all values and numbers of decimals: the printed forms (both styles, angle and right ascension) never show 60 in minutes or seconds after the rounding carry, wrap 360 deg to 0, carry the sign exactly once on the leading non-zero field and read back to the rounded value modulo 360 deg / 24 h - decided on every class the code can distinguish (each field at 0, 1, mid-range, its maximum; seconds that round to 0, to 60 or stay; both signs; no / zero / some decimals). deg2dms is proved to be (int a, int 60 frac a, 60 frac(60 frac a), sign) of a = |reduce(value)| and dms2deg its inverse formula. The decomposition clause is additionally decided by executing dms_tuple() / ra_tuple() exactly on values at and within 1e-13..1e-9 of a whole second, minute or degree (hour), of 0 and of +-360, of both signs: integer degrees in [0, 360) / hours in [0, 24), integer minutes in [0, 60), seconds in [0, 60), the sign of the value, recombination to 1e-9 degree - so a carry added to the splitting routine is judged by what it returns, for the angle and the hour form alike. What float rounding adds is not decided. Where the printing routine reads the object's own comparison tolerance (settable, copied by the copy constructor) that tolerance is one more dimension of the table (1e-10, 0, 1e-3).",
     "note": "Trusted: Python's round() and str.format(). Undecided: float rounding of frac*60 inside deg2dms and of the recombination; values off the executed grid (the formula proof covers them when the routine has the plain form).",
 }
 MOD, CLS = "Angle", "Angle"
